@@ -53,10 +53,16 @@ pub fn invalid_ops(prog: &Prog, obs: &Value, setup: &Setup) -> Vec<(&'static str
         v.push(("unobserve-unregistered-var", Op::Unobserve(2, Some(g.clone()))));
     }
     v.push(("unobserve-undeclared-var", Op::Unobserve(0, Some("no_such_var".into()))));
-    if setup.bind_externals.is_some()
-        && let Some(e) = prog.externals.first()
-    {
-        v.push(("bind-twice", Op::Bind(e.clone(), true)));
+    if setup.bind_externals.is_some() {
+        for (i, e) in prog.externals.iter().enumerate().take(2) {
+            if i == 0 {
+                v.push(("bind-twice", Op::Bind(e.clone(), true)));
+            }
+            // a refused re-bind must leave the first handler (and its look-ahead flag) in place:
+            // the alternative handler answers -999 and logs "extalt:", so any later call shows it
+            v.push(("bind-twice-other-handler", Op::BindAlt(e.clone(), true)));
+            v.push(("bind-twice-other-flag", Op::BindAlt(e.clone(), false)));
+        }
     }
     v.push(("unbind-unbound", Op::Unbind("no_such_ext".into())));
     v
